@@ -772,15 +772,22 @@ func TestVerifC13PresentedOnTheWire(t *testing.T) {
 	alpns := [][]string{nil, {"h2"}, {"http/1.1"}}
 	perms := [][]int{{0, 1, 2}, {0, 2, 1}, {1, 0, 2}, {1, 2, 0}, {2, 0, 1}, {2, 1, 0}}
 	seen := 0
+	var lists [][]int
+	for _, tr := range triples {
+		for _, pm := range perms {
+			lists = append(lists, []int{tr[pm[0]], tr[pm[1]], tr[pm[2]]})
+		}
+	}
+	if vreport.Thorough() {
+		// plus every ordered list of 1..2 distinct contexts out of all 12
+		c13Lists(len(c13Ctxs), 2, func(l []int) bool { lists = append(lists, l); return true })
+	}
 	complete := vreport.Run(p, func(yield func(c13SeenCase) bool) {
-		for _, tr := range triples {
-			for _, pm := range perms {
-				l := []int{tr[pm[0]], tr[pm[1]], tr[pm[2]]}
-				for _, sni := range snis {
-					for _, al := range alpns {
-						if !yield(c13SeenCase{Ctxs: l, SNI: sni, ALPN: al}) {
-							return
-						}
+		for _, l := range lists {
+			for _, sni := range snis {
+				for _, al := range alpns {
+					if !yield(c13SeenCase{Ctxs: l, SNI: sni, ALPN: al}) {
+						return
 					}
 				}
 			}
@@ -843,6 +850,6 @@ func TestVerifC13PresentedOnTheWire(t *testing.T) {
 		vreport.HarnessError("C13", c13PartName("presented-on-the-wire"), "no handshake showed a certificate")
 		t.Errorf("no handshake showed a certificate")
 	}
-	p.End(complete, fmt.Sprintf("all 6 arrangements of 2 context triples x SNI %q x client ALPN %v, real handshakes (%v)", snis, alpns, c13VersionsHere()),
+	p.End(complete, fmt.Sprintf("%d context lists (all 6 arrangements of 2 triples; thorough: plus every ordered list of 1..2 out of 12) x SNI %q x client ALPN %v, real handshakes (%v)", len(lists), snis, alpns, c13VersionsHere()),
 		"one evaluation = one loopback handshake of a crypto/tls reference client (certificate verification off, it only records the leaf it is shown) with serverContextManager.Conn; compared with the statement exactly as in selection-static")
 }
